@@ -118,7 +118,9 @@ Definition c_render (rc : Z) (mt : ctmpl) (regs : rk -> Z -> option Z) : obs :=
   let (m, t) := mt in
   let k := t mod 16 in
   let q := rc mod 4 in
-  if is_macro_page t && (0 <=? m) && negb ((rc / 4) mod 2 =? 1) then c_macro_page rc t else
+  if is_macro_page t && (0 <=? m) then
+    (let r := c_macro_page rc t in
+     if ((rc / 4) mod 2 =? 1) && negb (fst r =? 1) then o_err E_WriteFailure else r) else
   if is_macro_page t && (m =? -1) then c_macro_page rc t else
   if is_macro_page t && (m =? -2) then (0, if (t / 64) mod 4 =? 2 then 4 else 3) else
   if m =? -2 then (0, if k =? 10 then 2 else if (k =? 5) || ((8 <=? k) && (k <=? 15)) then 1 else 0)
@@ -226,14 +228,14 @@ Definition s_report (w : s_world) (now esc : Z) : list Z :=
 
 (* the contents the specification says the environments hold (what a fresh environment is built from) *)
 Definition optz (o : option Z) : Z := match o with Some z => z | None => -1 end.
-Definition s_contents_env (e : senv) (now : Z) : list Z :=
+Definition s_contents_env (e : senv) (now esc : Z) : list Z :=
   map (fun n => optz (option_map snd (tpl (sc e) n))) universe ++
   map (fun n => optz (option_map fst (tpl (sc e) n))) universe ++ [optz (cur_loader (sc e)); now] ++
-  flat_map (fun k => [optz (sr e k 0); optz (sr e k 1); optz (sr e k 2); optz (sr e k 3)]) [RF; RT; RG] ++ [cur_cfg (sc e)].
-Definition s_contents (w : s_world) (now : Z) : list Z :=
-  s_contents_env (scur w) now ++
+  flat_map (fun k => [optz (sr e k 0); optz (sr e k 1); optz (sr e k 2); optz (sr e k 3)]) [RF; RT; RG] ++ [cur_cfg (sc e); esc].
+Definition s_contents (w : s_world) (now esc : Z) : list Z :=
+  s_contents_env (scur w) now esc ++
   match sother w with
-  | Some e => 1 :: s_contents_env e now
+  | Some e => 1 :: s_contents_env e now esc
   | None => [0]
   end.
 
@@ -244,19 +246,19 @@ Definition finish (mode : Z) (lines : list (list Z)) : list Z :=
 
 Definition run_with (old : bool) (inp : list Z) : list Z :=
   match inp with
-  | mode :: _ :: steps => finish mode (drive m_world (m_step old) m_report (world_new ctmpl c_builtin) 0 steps)
+  | mode :: _ :: steps => finish mode (drive m_world (m_step old) m_report (world_new ctmpl c_builtin) 0 0 steps)
   | _ => [9]
   end.
 Definition run := run_with false.
 Definition run_old := run_with true.
 Definition spec (inp : list Z) : list Z :=
   match inp with
-  | mode :: _ :: steps => finish mode (drive s_world s_step s_report (sworld_new c_builtin_has) 0 steps)
+  | mode :: _ :: steps => finish mode (drive s_world s_step s_report (sworld_new c_builtin_has) 0 0 steps)
   | _ => [9]
   end.
 Definition spec_contents (inp : list Z) : list Z :=
   match inp with
-  | _ :: _ :: steps => concat (drive s_world s_step s_contents (sworld_new c_builtin_has) 0 steps)
+  | _ :: _ :: steps => concat (drive s_world s_step s_contents (sworld_new c_builtin_has) 0 0 steps)
   | _ => [9]
   end.
 
